@@ -90,12 +90,13 @@ def plan(tier, seed):
         shards = [{"perm": p, "sources": srcs, "depth": 2, "tier": tier} for p in range(nperm)]
     else:
         # every process keeps everything it builds alive (that is the point), so
-        # memory bounds what one process can hold: two sources per process, every
-        # pair of neighbouring sources under 32 different op orders
-        shards = [{"perm": p, "sources": [srcs[p % len(srcs)], srcs[(p + 1) % len(srcs)]], "depth": 2, "tier": tier} for p in range(nperm)]
+        # memory bounds what one process can hold: one source per process under
+        # 32 different op orders (each source 5-6 times), plus the quick tier's
+        # two-source processes under four more orders
+        shards = [{"perm": p, "sources": [srcs[p % len(srcs)]], "depth": 2, "tier": tier} for p in range(nperm)] + [{"perm": 100 + p, "sources": srcs[:2], "depth": 2, "tier": tier} for p in range(4)]
     return {
         "shards": shards,
-        "workers": min(16, nperm) if tier == "quick" else 6,
+        "workers": min(16, nperm) if tier == "quick" else 5,
         "coverage": {
             "exhaustive": True,
             "bounds": {"depth": 2, "ops": len(VARIANTS), "sources": len(srcs), "independent_long_lived_processes": nperm, "sources_per_process": len(shards[0]["sources"]), "program_order": "one fixed permutation of the op alphabet per process"},
